@@ -215,6 +215,30 @@ class Facts:
             self._flat[key] = flatten(self, f, stop=self._units - {f.id})
         return self._flat[key]
 
+    def units_of(self, pred):
+        """flattened views of the functions satisfying pred(fn) that are not private helpers spliced into a single owner
+        (a who-may-do rule over `all functions of class X` must not see a helper twice: once alone, once inside its caller)"""
+        from .inline import owner_of
+        out = []
+        for f in sorted(self.fns.values(), key=lambda f: (f.file, f.line, f.sig)):
+            if f.body is None or not pred(f):
+                continue
+            own = owner_of(self, f, stop=getattr(self, "_units", set()))
+            if own.id != f.id and pred(own) and not f.lambda_of:
+                continue
+            if f.lambda_of:
+                # a lambda called directly by its definer is spliced there; one passed as a value (slot, callback) stands alone
+                continue_ = False
+                definer = self.fns.get(f.lambda_of)
+                if definer is not None:
+                    fl = self.flat(definer)
+                    if any(x.get("inl_fn") == f.id for x in fl.all_nodes() if x.get("k") == "call"):
+                        continue_ = True
+                if continue_:
+                    continue
+            out.append(self.flat(f))
+        return out
+
     def fn(self, name, nparams=None, sig_contains=None, optional=False, flat=True):
         c = self.fn_all(name)
         if nparams is not None:
